@@ -207,6 +207,10 @@ def fval(kind, v):
         return v.rstrip("L") + "_C_LONG"
     if kind == "dbl":
         return v + "_C_DOUBLE"
+    if kind == "flt":
+        return v + "_C_FLOAT"
+    if kind == "intL":
+        return v.rstrip("L")
     return v
 
 
@@ -243,6 +247,10 @@ FROWS = {
     "arr_out": dict(decl="real(C_DOUBLE) :: {n}(4)", set="{n} = -1.0_C_DOUBLE", arg="{n}",
                     fout="call vt_arr_dbl({n}, int({m}, C_LONG))", vk="dbl"),
     "out_n": dict(decl="integer(C_INT) :: {n}", set="{n} = {v}", arg="{n}", fin="call vt_int(int({n}, C_LONG))", vk="int"),
+    # fortran_generic (docs/fortran.rst "Generic Functions"): the caller's variable has another kind than the C++
+    # parameter; the generic interface converts it
+    "float_for_double": dict(decl="real(C_FLOAT) :: {n}", set="{n} = {v}", arg="{n}", fin="call vt_dbl(real({n}, C_DOUBLE))", vk="flt"),
+    "int_for_long": dict(decl="integer(C_INT) :: {n}", set="{n} = {v}", arg="{n}", fin="call vt_int(int({n}, C_LONG))", vk="intL"),
     # struct (docs/struct.rst): a bind(C) derived type passed by value, by pointer, by const reference
     "pt_v": dict(decl="type(pt) :: {n}", set="{n} = pt({v}, 1.5_C_DOUBLE)", arg="{n}", fin=FPT, vk="int"),
     "pt_pinout": dict(decl="type(pt) :: {n}", set="{n} = pt({v}, 2.5_C_DOUBLE)", arg="{n}", fin=FPT, fout=FPT, vk="int"),
@@ -255,7 +263,7 @@ FROWS = {
     "vec_out_alloc": dict(decl="integer(C_INT), allocatable :: {n}(:)", set="continue", arg="{n}",
                           fout="call vt_arr_int({n}, size({n}, kind=C_LONG))", vk="int"),
     # rank 2: {r} x {c} is (3,2), (1,4), (2,2), (4,1) in turn
-    "arr2_in": dict(decl="integer(C_INT) :: {n}({r},{c}), k_{n}", set="{n} = reshape([(k_{n} * 3 + {v}, k_{n} = 1, {r} * {c})], [{r}, {c}])",
+    "arr2_in": dict(decl="integer(C_INT) :: {n}({r},{c}), k_{n}", set="{n} = reshape([(k_{n} * 3 + ({v}), k_{n} = 1, {r} * {c})], [{r}, {c}])",
                     arg="{n}", fin=F2D, vk="int"),
     "arr2_n1": dict(decl="integer(C_INT) :: {n}", set="{n} = size({a}, 1)", arg="{n}", fin="call vt_int(int({n}, C_LONG))", vk="int"),
     "arr2_n2": dict(decl="integer(C_INT) :: {n}", set="{n} = size({a}, 2)", arg="{n}", fin="call vt_int(int({n}, C_LONG))", vk="int"),
@@ -282,6 +290,14 @@ def vector_cases():
             F("v3", "int", [P("int_v", "k"), P("vec_out_alloc", "v")]),
             F("v4", "iptr3", [P("int_v", "k")]),
             F("v5", "double", [P("vec_in", "a"), P("vec_inout", "b"), P("vec_out_alloc", "c")]),
+            # fortran_generic: one C++ function, a generic interface with one specific per listed declaration
+            F("v7", "int", [P("double_v", "x"), P("int_v", "k")], fgeneric=[{}, {"x": "float_for_double"}],
+              yaml_extra={"fortran_generic": [{"decl": "(float x)", "function_suffix": "_float"},
+                                               {"decl": "(double x)", "function_suffix": "_double"}]}),
+            F("v8", "double", [P("long_v", "n"), P("double_v", "x")],
+              fgeneric=[{}, {"n": "int_for_long"}, {"x": "float_for_double"}, {"n": "int_for_long", "x": "float_for_double"}],
+              yaml_extra={"fortran_generic": [{"decl": "(int n, float x)"}, {"decl": "(int n, double x)"},
+                                               {"decl": "(long n, float x)"}, {"decl": "(long n, double x)"}]}),
             F("v6", "void", [P("arr2_in", "src", m1="nr", m2="nc"), P("arr2_n1", "nr", a="src"), P("arr2_n2", "nc", a="src"),
                              P("arr2_out", "dst", a="src", m1="nr", m2="nc")])]
 
